@@ -304,7 +304,30 @@ func (c *ctx) bytesN(n int) []byte {
 
 func newRand(seed int64) *rand.Rand { return rand.New(rand.NewSource(seed)) }
 
-func (c *ctx) pick(xs ...int) int        { return xs[c.rnd.Intn(len(xs))] }
+func (c *ctx) pick(xs ...int) int { return xs[c.rnd.Intn(len(xs))] }
+
+// edgeN: a value in 0..n-1, one time in four from the ends and the byte / half-range boundaries of the range
+func (c *ctx) edgeN(n int) int {
+	if c.rnd.Intn(4) != 0 {
+		return c.rnd.Intn(n)
+	}
+	cand := []int{0, 1, 2, n - 1, n - 2, n / 2, n/2 - 1, 255, 256, 257, 65535, 65536}
+	for {
+		x := cand[c.rnd.Intn(len(cand))]
+		if x >= 0 && x < n {
+			return x
+		}
+	}
+}
+
+// edge32: a uint32, one time in four from its boundaries
+func (c *ctx) edge32() uint32 {
+	if c.rnd.Intn(4) != 0 {
+		return c.rnd.Uint32()
+	}
+	return []uint32{0, 1, 0xff, 0x100, 0xffff, 0x10000, 0xffffff, 0x1000000, 0x7fffffff, 0x80000000, 0xfffffffe, 0xffffffff}[c.rnd.Intn(12)]
+}
+
 func (c *ctx) pickS(xs ...string) string { return xs[c.rnd.Intn(len(xs))] }
 
 // withSpare returns b as a sub-slice of a larger backing array (guard bytes before, spare capacity
